@@ -503,9 +503,27 @@ pub fn apply(s: &mut Stream, name: &'static str, rng: &mut Rng) -> Option<Applie
                 _ => w[8] |= 0x10 << g.below(4),     // bits 71:68
             }
         }),
-        "tdt_id" => word_fault(s, rng, name, &["E991", "E70"], true, &|ws, i, _| ws[i].kind == Kind::Tdt, &|w, g| {
-            w[9] = *g.pick(&[0xF1u8, 0xF2, 0x00, 0x1F, 0x60])
-        }),
+        "tdt_id" => {
+            // 0xFF - the ID that looks like padding - only where it stays distinguishable from it: the last
+            // word of a packet whose trailing 0xFF run (word bytes + padding) stays below 10 bytes
+            let ff_ok: Vec<(usize, usize, usize)> = find_words(s, &|ws, i, pk| {
+                ws[i].kind == Kind::Tdt && i + 1 == ws.len() && (pk.rdh.data_format == 0 || pk.padding + 1 + (ws[i].word[8] == 0xFF) as usize * 9 <= 9)
+            });
+            if !ff_ok.is_empty() && rng.chance(1, 3) {
+                let (l, p, w) = ff_ok[rng.usize_below(ff_ok.len())];
+                s.links[l].packets[p].words[w].word[9] = 0xFF;
+                let off = word_off(s, l, p, w);
+                return Some(Applied {
+                    name,
+                    expects: vec![ex(&["E991", "E70"], off, true, true, true, false)],
+                    silent_in_sanity: false,
+                    silent_in_sanity_no_target: false,
+                });
+            }
+            word_fault(s, rng, name, &["E991", "E70"], true, &|ws, i, _| ws[i].kind == Kind::Tdt, &|w, g| {
+                w[9] = *g.pick(&[0xF1u8, 0xF2, 0x00, 0x1F, 0x60])
+            })
+        }
         "data_word_id" => word_fault(s, rng, name, &["E991", "E70"], true, &|ws, i, _| ws[i].kind == Kind::Data, &|w, g| {
             w[9] = *g.pick(&[0x00u8, 0x1F, 0x29, 0x3F, 0x47, 0x4F, 0x57, 0x5F, 0x60, 0x9A])
         }),
@@ -524,7 +542,11 @@ pub fn apply(s: &mut Stream, name: &'static str, rng: &mut Rng) -> Option<Applie
                 Some(pw) if pw.kind == Kind::Tdh => "E990",
                 _ => "E992",
             };
-            s.links[l].packets[p].words[w].word[9] = *rng.pick(&[0xE5u8, 0xE6, 0x00, 0xEC]);
+            let pk = &s.links[l].packets[p];
+            let ff_ok = w + 1 == pk.words.len()
+                && (pk.rdh.data_format == 0 || pk.padding + 1 + (pk.words[w].word[8] == 0xFF) as usize * 9 <= 9);
+            s.links[l].packets[p].words[w].word[9] =
+                if ff_ok && rng.chance(1, 3) { 0xFF } else { *rng.pick(&[0xE5u8, 0xE6, 0x00, 0xEC]) };
             Some(Applied {
                 name,
                 expects: vec![ex(&[code, "E60"], word_off(s, l, p, w), true, true, true, false)],
